@@ -26,6 +26,13 @@ def _alarm(signum, frame):
     raise _Timeout()
 
 
+def _safe_str(p):
+    try:
+        return str(p)
+    except Exception as e:  # the printer rejects the IR (e.g. a statement list that is empty): reported, not fatal
+        return f"<unprintable: {type(e).__name__}: {str(e)[:120]}>"
+
+
 def canon_proc_hash(unit, which):
     """canonical hash of the reference (A) or derived (B) procedure TOGETHER WITH its callees: a call statement
     only holds the callee's index, so two results that call different callees must not collapse"""
@@ -113,8 +120,10 @@ def _job(job, emit):
             rec["status"] = "export-error"
             rec["msg"] = str(e)[:200]
             return rec, q
-        rec["text_a"] = str(base)
-        rec["text_b"] = str(q)
+        rec["text_a"] = _safe_str(base)
+        rec["text_b"] = _safe_str(q)
+        if rec["text_b"].startswith("<unprintable"):
+            rec["unprintable"] = rec["text_b"]
         hb = canon_proc_hash(unit, "B")
         if top_proc_hash(unit, "B") == top_proc_hash(unit, "A"):
             rec["status"] = "noop"
